@@ -39,6 +39,7 @@ func runC11(c *Check, tier string) {
 	ruleOutputIdentity(c, "R11o")
 	// the ancestor sets the conflict detection compares are computed from the declared edges
 	ruleAdjacencyNotAliased(c, "R11p")
+	ruleEscapeTestSeesWholePattern(c, "R11q")
 }
 
 func isNoReturnCall(in ssa.Instruction) bool {
